@@ -92,10 +92,21 @@ fn exec<T: Tbl>(ctx: &mut Ctx, ev: &Ev) {
             if j == i + 1 || i == j + 1 {
                 let k = std::cmp::min(i, j);
                 ctx.cell_only(&cell("swap_adjacent", regime2(k, k + 1), T::ty(), n));
+                // swap_adjacent takes `&mut self` but is the copying form: the receiver must be left as it was
                 let adj = guard(|| {
                     let mut g = f.clone();
-                    g.t_swap_adjacent(k)
+                    let r = g.t_swap_adjacent(k);
+                    (r, g)
                 });
+                let adj = match adj {
+                    Outcome::Returned((r, g)) => {
+                        ctx.check("receiver-unchanged", g == f && g.t_blocks() == f.t_blocks(), ev, "swap_adjacent", || {
+                            format!("swap_adjacent({}) changed its receiver {} into {}", k, show(&mf), vmon::ctx::hex_of_blocks(g.t_blocks()))
+                        });
+                        Outcome::Returned(r)
+                    }
+                    Outcome::Panicked(m) => Outcome::Panicked(m),
+                };
                 let adj_in = guard(|| {
                     let mut g = f.clone();
                     g.t_swap_adjacent_inplace(k);
@@ -185,6 +196,10 @@ fn exec<T: Tbl>(ctx: &mut Ctx, ev: &Ev) {
         }
         other => panic!("harness: unknown op {}", other),
     }
+    // every call above took `f` by shared reference (or worked on a clone): it must still be the table it was
+    ctx.check("receiver-unchanged", f.t_blocks() == &ev.tabs[0][..] && f.nv() == n, ev, "after-event", || {
+        format!("the operand {} reads {} after the calls of this event", show(&mf), vmon::ctx::hex_of_blocks(f.t_blocks()))
+    });
 }
 
 fn exec_dispatch(ctx: &mut Ctx, ev: &Ev) {
